@@ -71,6 +71,9 @@ def gen_case(rng, m, tier):
         if dollar:
             i = r.randint(1, n - 2)
             sl = sl[:i] + b"$" + sl[i + 1:]
+            if n >= 8 and r.random() < 0.5:
+                for i in r.sample(range(n), r.choice([1, 2, 3])):       # several, also adjacent and at the ends
+                    sl = sl[:i] + b"$" + sl[i + 1:]
         s = b"$7$" + A64[nl:nl + 1] + gen.enc64_le(rr, 5) + gen.enc64_le(p, 5) + sl + r.choice([b"", b"$", b"$" + salt(r, 43)])
         return s, "scrypt/N%d/r%d/p%d%s" % (nl, rr, p, "/$" if dollar else ""), 0.01
     if m in ("yescrypt", "gost_yescrypt"):
@@ -89,6 +92,15 @@ def gen_case(rng, m, tier):
             t = r.choice([0, 0, 1, 2]) if fl == b"j" else 0
             if fl == b"." and nl < 2:
                 nl = 2
+            if nl <= 5 and r.random() < 0.3:
+                # numbers that need two characters in yescrypt's variable-length encoding (48 and up)
+                k = r.choice(["r", "r", "p", "t"])
+                if k == "r":
+                    rr = r.choice([48, 49, 50, 63, 64, 65, 82, 100, 113, r.randint(48, 130)])
+                elif k == "p":
+                    rr, p = r.choice([1, 2]), r.choice([50, 51, 52, 64, 81])
+                elif fl == b"j":
+                    rr, t = r.choice([1, 2]), r.choice([48, 49, 50, 51, 66])
         params = fl + gen.yes_enc_uint(nl, 1) + gen.yes_enc_uint(rr, 1)
         have = (1 if p > 1 else 0) | (2 if t else 0)
         if have:
